@@ -7,6 +7,7 @@
 import GeonumModel.Lemmas.AngleStep
 import GeonumModel.Lemmas.GradeAngle
 import GeonumModel.Spec.RealWitness
+import GeonumModel.Spec.RoundWitness
 
 set_option linter.unusedSectionVars false
 set_option linter.unusedVariables false
@@ -295,5 +296,20 @@ example {F : Type} [FloatSpec F] : ∀ o ∈ ([.step .dual, .add ⟨zero, 5⟩, 
   · trivial
   · exact inv_zero 5
   · exact inv_zero 11
+
+
+/-! ### R — on the arithmetic that really rounds (`R64`: round-to-nearest on the binary64 grid, correctly rounded libm) -/
+section R
+
+/-- (R) the mixed-history theorem for histories of binary64 numbers: no hypothesis about the arithmetic is left -/
+theorem run_mixed_rounded (ops : List (MOp R64)) (g : Geonum R64) (ha : g.angle.Inv) (hops : ∀ o ∈ ops, o.Ok) :
+    (ops.foldl mstep g).angle.Inv ∧ (ops.foldl mstep g).mag = g.mag ∧
+    ∃ ks : List ℤ, List.Forall₂ MOp.Allowed ops ks ∧
+      ((ops.foldl mstep g).angle.blade : ℤ) % 4 = ((g.angle.blade : ℤ) + ks.sum) % 4 ∧
+      (g.angle.blade : ℤ) + ks.sum ≤ ((ops.foldl mstep g).angle.blade : ℤ) ∧
+      ((∀ o ∈ ops, o.isSub = false) → ((ops.foldl mstep g).angle.blade : ℤ) = (g.angle.blade : ℤ) + ks.sum) :=
+  run_mixed (F := R64) ops g ha hops
+
+end R
 
 end GeonumModel.C07
